@@ -16,12 +16,12 @@ EXTENDS RTableEnv, Json
 CONSTANTS Composite,         \* TRUE: whole desired states are set in one step ("program"), for the cover idiom
           SimLen, Sim        \* Sim: -simulate mode (one random parameter choice per action class)
 VARIABLE hist
-gvars == <<cfg, desired, kernel, belief, phase, known, hist>>
+gvars == <<cfg, desired, kernel, kmaps, belief, phase, known, hist>>
 
 GInit == \E c \in Cfgs, k \in StartKernels :
             /\ (DOMAIN k = {} => c.ownsAll)
-            /\ cfg = c /\ kernel = k
-            /\ desired = [chains |-> [x \in {} |-> <<>>], force |-> {}, ins |-> [x \in KCh |-> <<>>], app |-> [x \in KCh |-> <<>>]]
+            /\ cfg = c /\ kernel = k /\ kmaps = [x \in {} |-> {}]
+            /\ desired = [chains |-> [x \in {} |-> <<>>], force |-> {}, maps |-> [x \in {} |-> {}], ins |-> [x \in KCh |-> <<>>], app |-> [x \in KCh |-> <<>>]]
             /\ belief = [stale |-> TRUE, due |-> TRUE]
             /\ phase = [inApply |-> FALSE, readFailed |-> FALSE, envFail |-> FALSE, notified |-> FALSE, consistent |-> TRUE]
             /\ known = {}
@@ -40,13 +40,16 @@ GApply(fw, fr, pre, e, prefail) ==
     IN  /\ Idle /\ Consistent(desired)
         /\ (pre # "none" => k1 # kernel)
         /\ kernel' = IF fails THEN k1 ELSE Target(k1, desired)
+        /\ kmaps' = IF fails THEN kmaps ELSE desired.maps
         /\ desired' = IF fails THEN EmptyDesired ELSE desired
         /\ belief' = IF fails THEN [stale |-> TRUE, due |-> TRUE] ELSE [stale |-> FALSE, due |-> FALSE]
         /\ UNCHANGED <<cfg, phase, known>>
 
 \* complete desired states over the first kernel chain (the others stay unhooked)
 K1 == "K1"
-Des(ch, fs, i, a) == [chains |-> ch, force |-> fs, ins |-> [k \in KCh |-> IF k = K1 THEN i ELSE <<>>], app |-> [k \in KCh |-> IF k = K1 THEN a ELSE <<>>]]
+Des(ch, fs, i, a) == [chains |-> ch, force |-> fs, maps |-> [x \in {} |-> {}], ins |-> [k \in KCh |-> IF k = K1 THEN i ELSE <<>>], app |-> [k \in KCh |-> IF k = K1 THEN a ELSE <<>>]]
+DesM(d, ms) == [d EXCEPT !.maps = [n \in {FwMap} |-> ms]]
+MapsJ(m) == [n \in DOMAIN m |-> SetToSeqG(m[n])]
 AB(ra, rb) == [c \in {"cali-a", "cali-b"} |-> IF c = "cali-a" THEN ra ELSE rb]
 DesiredMenu ==
     { Des([c \in {} |-> <<>>], {}, <<>>, <<>>),
@@ -57,15 +60,18 @@ DesiredMenu ==
       Des(AB(<<b(1), j(2, "cali-b")>>, <<>>), {}, <<j(5, "cali-a")>>, <<>>),
       \* a force-programmed parent that nothing else references, with a child; and the child alone
       Des(AB(<<b(1), j(2, "cali-b")>>, <<b(1)>>), {"cali-a"}, <<b(3)>>, <<>>),
-      Des([c \in {"cali-b"} |-> <<b(1)>>], {}, <<b(3)>>, <<>>) }
-GProgram(d) == Idle /\ desired # d /\ desired' = d /\ UNCHANGED <<cfg, kernel, belief, phase, known>>
+      Des([c \in {"cali-b"} |-> <<b(1)>>], {}, <<b(3)>>, <<>>),
+      \* nftables verdict maps: a dispatch map with two / one interfaces, looked up from the hook rule
+      DesM(Des(AB(<<b(1)>>, <<b(1)>>), {}, <<vm(6)>>, <<>>), {mm("e1", "cali-a"), mm("e2", "cali-b")}),
+      DesM(Des(AB(<<b(1)>>, <<b(1)>>), {}, <<vm(6)>>, <<>>), {mm("e1", "cali-a")}) }
+GProgram(d) == Idle /\ desired # d /\ desired' = d /\ UNCHANGED <<cfg, kernel, kmaps, belief, phase, known>>
 
 ApplyRec(fw, fr, pre, e, prefail) == [op |-> "apply", fw |-> fw, fr |-> fr, pre |-> pre, edit |-> e, prefail |-> prefail]
 
 GNext ==
   \/ /\ Len(hist) = SimLen /\ hist' = Append(hist, [op |-> "end"]) /\ UNCHANGED vars
   \/ /\ Len(hist) < SimLen
-     /\ \/ Composite /\ \E d \in DesiredMenu : Step(GProgram(d), [op |-> "program", chains |-> d.chains, force |-> SetToSeqG(d.force), ins |-> d.ins[K1], app |-> d.app[K1]])
+     /\ \/ Composite /\ \E d \in DesiredMenu : Step(GProgram(d), [op |-> "program", chains |-> d.chains, force |-> SetToSeqG(d.force), maps |-> MapsJ(d.maps), ins |-> d.ins[K1], app |-> d.app[K1]])
         \/ ~Composite /\ \E c \in Pick(DesChains) : \E m \in Pick(ChainMenu(c)) :
               /\ (IF c \in DOMAIN desired.chains THEN desired.chains[c] # m.rules \/ (c \in desired.force) # m.force ELSE TRUE)
               /\ Step(SetChain(c, m.rules, m.force), [op |-> "set_chain", name |-> c, rules |-> m.rules, force |-> m.force])
@@ -73,6 +79,12 @@ GNext ==
         \/ ~Composite /\ \E k \in Pick(KCh), rs \in Pick(InsMenu) : desired.ins[k] # rs /\ Step(SetIns(k, rs), [op |-> "set_ins", chain |-> k, rules |-> rs])
         \/ ~Composite /\ \E k \in Pick(KCh), rs \in Pick(AppMenu) : desired.app[k] # rs /\ Step(SetApp(k, rs), [op |-> "set_app", chain |-> k, rules |-> rs])
         \/ \E e \in Pick({ x \in Edits : EditFn(kernel, x) # kernel }) : Step(ExternalEdit(EditFn(kernel, e)), [op |-> "edit", edit |-> e])
+        \/ ~Composite /\ \E ms \in Pick(MapMenu) : (IF FwMap \in DOMAIN desired.maps THEN desired.maps[FwMap] # ms ELSE TRUE)
+              /\ Step(SetMap(FwMap, ms), [op |-> "set_map", name |-> FwMap, members |-> SetToSeqG(ms)])
+        \/ ~Composite /\ Rarely(3) /\ FwMap \in DOMAIN desired.maps /\ Step(RemoveMap(FwMap), [op |-> "remove_map", name |-> FwMap])
+        \/ \E e \in Pick({ x \in MapEdits : EditFnM(kernel, kmaps, x)[2] # kmaps \/ x.kind = "deltable" }) :
+              LET r == EditFnM(kernel, kmaps, e) IN
+              Step(ExternalEditM(r[1], r[2]), [op |-> "edit", edit |-> (IF "members" \in DOMAIN e THEN [e EXCEPT !.members = SetToSeqG(@)] ELSE e)])
         \/ belief.stale /\ ~belief.due /\ Step(Tick, [op |-> "tick"])
         \/ Rarely(4) /\ Step(Restart, [op |-> "restart"])
         \/ Step(GApply(0, 0, "none", NoEdit, FALSE), ApplyRec(0, 0, "none", NoEdit, FALSE))
@@ -81,7 +93,7 @@ GNext ==
         \/ \E e \in Pick({ x \in PreEdits : EditFn(kernel, x) # kernel }), pre \in Pick({"read", "write"}), pf \in Pick(BOOLEAN) :
               (pre = "read" => ~pf) /\ Step(GApply(0, 0, pre, e, pf), ApplyRec(0, 0, pre, e, pf))
 
-GView == <<cfg, desired, kernel, belief>>
+GView == <<cfg, desired, kernel, kmaps, belief>>
 GBound == \A c \in DOMAIN kernel : Len(kernel[c]) <= 4
 EmitEdge == PrintT("BEH " \o ToJson(hist'))
 EmitAtLen == Len(hist) = SimLen + 1 => PrintT("BEH " \o ToJson(hist))
